@@ -39,14 +39,17 @@ UNWRAPPERS = re.compile(r'std::result::Result::<T, E>::(unwrap_or_else|unwrap_or
 def find_render_entry(w):
     """the public function that calls pretty::Doc::pretty and returns Result<String, _>"""
     out = []
+    from rules import c05
     for b in w.fn_bodies(w.core):
-        if b.def_kind == 'Closure':
+        if b.def_kind == 'Closure' or not b.j.get('effective_pub'):
             continue
         ret = b.locals[0]['ty']['s']
         if not ret.startswith('std::result::Result<std::string::String'):
             continue
-        if any(callee_path(t) and callee_path(t).endswith('::pretty') and 'pretty::Doc' in callee_path(t) for _, t in b.calls()):
-            out.append(b)
+        # the entry with its own (non-printer) helpers expanded: rendering + post-processing may sit in a private helper
+        nb = c05.entry_body(w, b)
+        if any(callee_path(t) and callee_path(t).endswith('::pretty') and 'pretty::Doc' in callee_path(t) for _, t in nb.calls()):
+            out.append(nb)
     if len(out) != 1:
         raise AnchorMissing('whole-document render entry (fn -> Result<String,_> calling Doc::pretty); found %s' % [b.short for b in out])
     return out[0]
@@ -150,7 +153,7 @@ def r1_postprocess_on_every_ok(w):
                           'post-processed text is mutated after post-processing (&mut borrow of _%d)' % l, entry.loc())
     # delegation of the other public whole-document entries
     good_entries = {entry.id}
-    pending = [b for b in w.fn_bodies(w.core) if b.def_kind != 'Closure' and b.j.get('effective_pub') and b is not entry
+    pending = [b for b in w.fn_bodies(w.core) if b.def_kind != 'Closure' and b.j.get('effective_pub') and b.id != entry.id
                and not b.j.get('impl_trait')
                and (b.locals[0]['ty']['s'].startswith('std::result::Result<std::string::String') or b.locals[0]['ty']['s'] == 'std::string::String')
                and b.id != post.id]
